@@ -329,3 +329,6 @@ def run(ctx):
     # "every non-empty thread stack appears": a thread is left out of the list only when it could not be attached or has no stack (rules/families.py)
     from rules import families as _famt
     _famt.thread_list(ctx, "C07")
+    # every flush hands the destination exactly the pending bytes and records how far it got (rules/families.py, destination family)
+    from rules import families as _famd2
+    _famd2.destination(ctx, "C07")
